@@ -1,3 +1,4 @@
+import Std.Data.HashMap
 import Tbx.Drv.Common
 import Tbx.Model.InertialFlow
 import Tbx.Spec.Bisection
@@ -102,14 +103,18 @@ def judgeMaxFlow (ces : List FlowSpec.E) : Option (Int × List FlowSpec.E) :=
   | none => none
   | some sv => some (sv.maxFlow, sv.g.triples)
 
-def coordOfNodes (nodes : List (Nat × Int × Int)) (i : Nat) : Coord :=
-  match nodes.find? (·.1 == i) with
-  | some (_, la, lo) => { lat := la, lon := lo }
+/-- node id -> coordinates as a function (driver glue: a hash map instead of a list scan, the first binding of an id wins as with `List.find?`) -/
+def coordMap (nodes : List (Nat × Int × Int)) : Std.HashMap Nat (Int × Int) :=
+  nodes.foldl (fun m (i, la, lo) => if m.contains i then m else m.insert i (la, lo)) {}
+
+def coordOfMap (m : Std.HashMap Nat (Int × Int)) (i : Nat) : Coord :=
+  match m[i]? with
+  | some (la, lo) => { lat := la, lon := lo }
   | none => { lat := 0, lon := 0 }
 
-def keyOfNodes (nodes : List (Nat × Int × Int)) (axis : Nat) (i : Nat) : Int :=
-  match nodes.find? (·.1 == i) with
-  | some (_, la, lo) => specKey axis la lo
+def keyOfMap (m : Std.HashMap Nat (Int × Int)) (axis : Nat) (i : Nat) : Int :=
+  match m[i]? with
+  | some (la, lo) => specKey axis la lo
   | none => 0
 
 def ltB (a b : Int) : Bool := decide (a < b)
@@ -164,8 +169,9 @@ def handle (c : Case) : CaseOut := Id.run do
   if inp.bound < 0 then return { model := #[], verdict := .skip "negative upper bound" }
   if inp.nodes.any (fun (_, la, lo) => la.natAbs ≥ 2 ^ 29 || lo.natAbs ≥ 2 ^ 29) then
     return { model := #[], verdict := .skip "coordinates whose key could overflow i32" }
-  let coordOf : Nat → Coord := coordOfNodes inp.nodes
-  let keyOf : Nat → Int := keyOfNodes inp.nodes inp.axis
+  let cmap := coordMap inp.nodes
+  let coordOf : Nat → Coord := coordOfMap cmap
+  let keyOf : Nat → Int := keyOfMap cmap inp.axis
   let keysSorted := (ids.map keyOf).toArray.qsort (· < ·)
   let distinct := (List.range (keysSorted.size - 1)).all fun i => keysSorted[i]! != keysSorted[i+1]!
   let tag := if distinct then "D" else "F"
